@@ -82,6 +82,8 @@ static void check_record(const ref_hdr *f, const uint8_t *data, size_t dlen, int
 		ref_integrity v0 = ref_hdr_parse(ABUF, hl + dlen, &back, &why);
 		if (v0 == REF_INT_ABSTAIN) return;      /* e.g. two common-CRC headers: the statement does not say which one counts */
 	}
+	if ((ref_hdr_parse(ABUF, hl + dlen, &back, &why) != REF_INT_OK || back.header_len != hl) && f->os == 'K' && f->level == 2)
+		return;       /* OS-9/68k writes its level-2 length two short: the smallest headers fall below the level minimum and are no headers */
 	if (ref_hdr_parse(ABUF, hl + dlen, &back, &why) != REF_INT_OK || back.header_len != hl) {
 		printf("HARNESS reference parser rejects encoder output (%s) for %s\n", why, VF.desc);
 		return;
@@ -157,6 +159,13 @@ static void check_record(const ref_hdr *f, const uint8_t *data, size_t dlen, int
 
 /* ====================================================================== C11: paths */
 
+static const char *os_name(uint8_t o)
+{
+	static char b[8];
+	if (o >= 0x21 && o < 0x7F) snprintf(b, sizeof b, "%c", o); else snprintf(b, sizeof b, "0x%02x", o);
+	return b;
+}
+
 static const uint8_t ALPHA6[7] = { '.', '/', '\\', 0xFF, 0x00, 'a', '|' };
 
 static void space_paths(void)
@@ -164,11 +173,14 @@ static void space_paths(void)
 	int maxlen = atoi(vf_extra("maxlen", "6"));
 	int carrier = atoi(vf_extra("carrier", "-1"));
 	int len, i, c, os_i, na;
-	static const uint8_t oss[2] = { 'M', 'U' };
+	int allos = atoi(vf_extra("allos", "0"));
+	static uint8_t oss[256] = { 'M', 'U' };
+	int noss = 2;
+	if (allos) { for (noss = 0; noss < 256; ++noss) oss[noss] = (uint8_t) noss; }
 	for (c = 0; c < 12; ++c) {
 		if (carrier >= 0 && c != carrier) continue;
 		na = c >= 7 && c <= 8 ? 7 : 6;                                /* link carriers add '|' */
-		for (os_i = 0; os_i < 2; ++os_i)
+		for (os_i = 0; os_i < noss; ++os_i)
 		for (len = 0; len <= maxlen; ++len) {
 			int idx[12];
 			if (c >= 5 && c <= 6 && len > maxlen) continue;
@@ -183,7 +195,7 @@ static void space_paths(void)
 				pb[0] = (uint8_t) (perm & 0xFF); pb[1] = (uint8_t) (perm >> 8);
 				/* pair carriers: every split point */
 				for (split = 0; split <= ((c == 5 || c == 6 || c == 8) ? len : 0); ++split) {
-					if (!vf_case("carrier=%d os=%c len=%d split=%d bytes=%s", c, oss[os_i], len, split, vf_hex(s, len))) continue;
+					if (!vf_case("carrier=%d os=%s len=%d split=%d bytes=%s", c, os_name(oss[os_i]), len, split, vf_hex(s, len))) continue;
 					memcpy(s1, s, split); memcpy(s2, s + split, len - split);
 					switch (c) {
 					case 0: hdr_init(&f, 0, "-lh0-"); f.name = s; f.name_len = len; break;
@@ -696,6 +708,39 @@ static void sweep_areas(void)
 	}
 }
 
+/* symbolic links whose 'name|target' is split over the path and file-name headers in every possible way, including targets
+ * that end in a separator (the whole string then sits in the path header and the file-name header is empty or absent) */
+static void sweep_links(void)
+{
+	static const char *joined[] = { "mylink|some/dir/", "d/mylink|../", "l|/", "a/b/l|t", "l|a/b", "x|y/", "d/|t", "|t", "l|" };
+	unsigned ji, level, os_i, form;
+	static const uint8_t oss[3] = { 'U', 'M', 'm' };
+	static const uint8_t perm[2] = { 0xFF, 0xA1 };
+	for (ji = 0; ji < sizeof joined / sizeof *joined; ++ji)
+	for (level = 2; level <= 3; ++level)
+	for (os_i = 0; os_i < 3; ++os_i)
+	for (form = 0; form < 3; ++form) {
+		const char *j = joined[ji];
+		size_t L = strlen(j), cut, i;
+		const char *last = strrchr(j, '/');
+		static uint8_t pth[64];
+		ref_hdr f;
+		/* the archiver's split: everything up to the last '/' is the path header, the rest the name header */
+		cut = last ? (size_t) (last - j) + 1 : 0;
+		if (!vf_case("symlink '%s' level %u os %c: path header holds %zu bytes, name header %s", j, level, oss[os_i], cut, form == 0 ? "holds the rest" : form == 1 ? "is empty" : "is absent")) continue;
+		if (form > 0 && cut != L) continue;         /* an empty or absent name header only when nothing is left for it */
+		hdr_init(&f, (int) level, "-lhd-");
+		f.os = oss[os_i];
+		for (i = 0; i < cut; ++i) pth[i] = j[i] == '/' ? 0xFF : (uint8_t) j[i];
+		if (cut) add_ext(&f, 2, pth, cut);
+		if (form == 0 && L > cut) add_ext(&f, 1, j + cut, L - cut);
+		else if (form == 1) add_ext(&f, 1, "", 0);
+		add_ext(&f, 0x50, perm, 2);
+		check_record(&f, DATA5, 0, 1 | 2, "c05");
+		vf_nontrivial(vf_mix(ji * 16 + level * 4 + os_i, form) + 11);
+	}
+}
+
 static void space_sweeps(void)
 {
 	static const uint32_t sizes[] = { 0, 1, 5, 0xFFFF, 0x10000, 0x7FFFFFFF, 0x80000000u, 0xFFFFFFFFu };
@@ -840,7 +885,7 @@ int main(int argc, char **argv)
 	else if (!strcmp(VF.space, "integrity")) space_integrity(12);
 	else if (!strcmp(VF.space, "perturbed-ok")) space_integrity(5);
 	else if (!strcmp(VF.space, "chains")) space_chains();
-	else if (!strcmp(VF.space, "sweeps")) { space_sweeps(); sweep_areas(); }
+	else if (!strcmp(VF.space, "sweeps")) { space_sweeps(); sweep_areas(); sweep_links(); }
 	else { fprintf(stderr, "unknown space %s\n", VF.space); return 2; }
 	vf_done();
 	return 0;
